@@ -558,6 +558,10 @@ class DataLinkConnection(TransmissionControlObject):
             raise RuntimeError("only I or DISC expected, not " + rcvd_pdu.name)
 
     def poll(self, event, timeout):
+        with self.lock:  # state check and wait must be atomic for close()
+            return self._poll(event, timeout)
+
+    def _poll(self, event, timeout):
         if self.state.SHUTDOWN:
             raise err.Error(errno.ESHUTDOWN)
 
